@@ -1503,6 +1503,15 @@ class Interp:
                                 if node.value else None)
         return None
 
+    def ex_YieldFrom(self, node, env):
+        e = env
+        while e is not None and '$yield' not in e.vars:
+            e = e.parent
+        if e is None:
+            raise Unsupported('yield from outside generator')
+        e.vars['$yield'].extend(self.iterate(self.eval(node.value, env)))
+        return None
+
     def ex_Starred(self, node, env):
         raise Unsupported('starred expression')
 
